@@ -1521,6 +1521,10 @@ class Session:
         ):
             self.distribute_keys()
 
+            # If we're not expecting key distributions from the peer, we're done
+            if not self.peer_expected_distributions:
+                self.on_peer_key_distribution_complete()
+
     def on_smp_pairing_response_command(
         self, command: SMP_Pairing_Response_Command
     ) -> None:
@@ -1574,6 +1578,9 @@ class Session:
         # Start phase 2
         if self.pairing_method == PairingMethod.CTKD_OVER_CLASSIC:
             # Authentication is already done in SMP, so remote shall start keys distribution immediately
+            # If we're not expecting key distributions from the peer, it is our turn
+            if not self.peer_expected_distributions:
+                self.on_peer_key_distribution_complete()
             return
 
         if self.sc:
